@@ -1100,6 +1100,40 @@ NAME_TEXTS = ["UTC", "TT", "TAI", "TDB", "ET", "GPST", "GPS", "GST", "GAL", "BDT
               "june", "Jul", "AUG", "september", "oct", "Nov", "december", "Decem", "janv", "mAy"]
 
 
+# typographic look-alikes of the ASCII characters the parsers give a meaning to (signs, digits, separators, letters): a parser that
+# starts honouring one of them usually keeps a byte offset computed for its one-byte ASCII counterpart
+LOOKALIKE = ["\u2212", "\u2010", "\u2011", "\u2012", "\u2013", "\u2014", "\u2015", "\ufe63", "\uff0d", "\u207b", "\u208b", "\u00ad", "\u02d7",   # minus / dashes
+             "\uff0b", "\u207a", "\u208a", "\ufe62", "\u00b1", "\u2795",                                                                                # plus
+             "\uff10", "\uff11", "\uff19", "\u0660", "\u0661", "\u06f0", "\u0966", "\u00b2", "\u00b9", "\u2460", "\U0001d7d8", "\U0001d7ce",     # digits
+             "\uff1a", "\ua789", "\u2236", "\ufe55", "\uff0e", "\u2024", "\uff0c", "\u00a0", "\u2003", "\u200b", "\u3000", "\ufeff",             # : . , spaces
+             "\uff34", "\uff3a", "\u0422", "\u0396", "\u03bc", "\u00b5", "\uff05", "\ufe6a", "\uff1f"]                                              # T Z mu % ?
+
+
+def gen_lookalikes(out):
+    dur_bases = ["5 h", "1 d 3 ns", "145 ns", "01:15:30", "10.598 s", "13 \u03bcs"]
+    ep_bases = ["2017-01-14T00:31:55 UTC", "2017-01-14 00:31:55.811", "2018-02-13T23:08:32Z", "1994-11-05T08:15:30-05:00", "JD 2452312.5 TAI", "SEC 66312032.18 TDB", "MJD 51544.5 UTC"]
+    for ch in LOOKALIKE:
+        for b in dur_bases:
+            for t in (ch + b, ch + ch + b, "-" + ch + b, " " + ch + b + " ", b[:1] + ch + b[1:], b + ch, ch):
+                out.append(f"p_dur {enc(t)}")
+        for b in ep_bases:
+            for t in (ch + b, b[:4] + ch + b[5:], b[:10] + ch + b[11:], b[:-3] + ch + b[-3:], b + ch, b[:13] + ch + b[14:]):
+                out.append(f"p_epoch {enc(t)}")
+                out.append(f"p_greg {enc(t)}")
+        for f, inp in (("%Y-%m-%d", "2020-01-05"), ("%Y-%m-%dT%H:%M:%S.%f%z", "1994-11-05T08:15:30-05:00"), ("%a, %d %b %Y %H:%M:%S", "Tue, 29 Feb 2000 14:57:29")):
+            for t in (ch + inp, inp[:4] + ch + inp[5:], inp + ch):
+                out.append(f"p_fmt {enc(f)} {enc(t)}")
+            out.append(f"p_fmt {enc(f[:2] + ch + f[3:])} {enc(inp)}")
+            out.append(f"fmt_debug {enc(ch + f)}")
+        for name in ("UTC", "Monday", "jan"):
+            out.append(f"p_ts {enc(ch + name)}")
+            out.append(f"p_wd {enc(ch + name)}")
+            out.append(f"p_month {enc(name + ch)}")
+        for num in ("5", "1.5"):
+            out.append(f"lex_i32 {enc(ch + num)}")
+            out.append(f"lex_f64 {enc(ch + num)}")
+
+
 def gen_C13(tier, seed):
     g = EGen(seed)
     r = g.r
@@ -1109,6 +1143,7 @@ def gen_C13(tier, seed):
         out.append(f"p_greg {enc(s)}")
     for s in DUR_TEXTS:
         out.append(f"p_dur {enc(s)}")
+    gen_lookalikes(out)
     for s in NAME_TEXTS:
         out.append(f"p_ts {enc(s)}")
         out.append(f"p_wd {enc(s)}")
